@@ -11,7 +11,7 @@ RULE = ('12 libFuzzer targets (clang: coverage-guided fuzzer + ASan + UBSan, T0 
         'RSA public operations, EC mul/muladd of every implementation; the second input byte seeds the chunking. Seed corpora are generated at '
         'run time: recorded valid handshakes of every key kind x client-auth kind, all test/x509 certificates, fixture keys, PEM, valid signatures, '
         'and boundary structures with key/signature sizes at and just beyond every internal buffer (255..257, 511..513, 519..522, 1535..1561 bytes). '
-        'Oracles: no sanitizer report, no H2 failure, interpreter steps per push <= 200000 + 4000*bytes, status getters consistent. Bounded by -runs. '
+        'After each decoder/crypto target the resulting corpus is replayed once under MemorySanitizer (clang, origins tracked). Oracles: no sanitizer report, no H2 failure, interpreter steps per push <= 200000 + 4000*bytes, status getters consistent. Bounded by -runs. '
         'distinct_nontrivial = libFuzzer coverage features reached (ft) summed over targets.')
 ASSUMPTIONS = [
     'coverage-guided but finite: only executed paths are judged; ASan misses non-adjacent and intra-object overflows other than the VM stacks (hook H2) and arrays UBSan bounds-checks',
@@ -20,7 +20,7 @@ ASSUMPTIONS = [
 ]
 EVAL = ['execs']
 DISTINCT = []
-REQUIRED = ['execs', 'targets_completed', 't0_steps', 'seeds']
+REQUIRED = ['execs', 'targets_completed', 't0_steps', 'seeds', 'msan_units_replayed']
 PARALLEL = 12
 
 TARGETS = [  # name, quick runs, max_len
@@ -37,9 +37,12 @@ def jobs(tier, seed):
     os.makedirs(work, exist_ok=True)
     os.makedirs(art, exist_ok=True)
     js = []
+    # corpus replay under MemorySanitizer for the targets that do not call into OpenSSL (uninstrumented)
+    msan_bin = vbuild.harness('msan', 'fz_all', ['-lcrypto'])
+    msan_targets = ('x509_minimal', 'x509_decoder', 'skey', 'pkey', 'pem', 'ecdsa', 'rsa_pub', 'ec_pub')
     for name, runs, maxlen in TARGETS:
         j = Job('fz_' + name, 'fz_all',
-                [name, work, os.path.join(art, name + '-'), runs * mult, seed, maxlen],
+                [name, work, os.path.join(art, name + '-'), runs * mult, seed, maxlen] + ([msan_bin] if name in msan_targets else []),
                 flavour='fuzz', libs=['-lcrypto'], wrapper=['sh', os.path.join(vbuild.HERE, 'tools', 'fzrun.sh')],
                 timeout=1200 if tier == 'quick' else 14000, tag=name,
                 env={'ASAN_OPTIONS': 'abort_on_error=1:detect_leaks=0:allocator_may_return_null=1:symbolize=1',
@@ -70,6 +73,10 @@ def on_job_done(job, rc, out, err, res):
         res.stat('coverage_features', ft)
         res.stat('corpus_units', corp)
         res.sample(dict(target=job.tag, runs=job.args[3], edges=c, features=ft, corpus=corp))
+    mm = re.search(r'#(\d+)\s+MSAN_DONE', txt)
+    if mm:
+        res.stat('msan_units_replayed', int(mm.group(1)))
+        res.stat('msan_targets_replayed', 1)
     art = re.search(r'Test unit written to (\S+)', txt)
     case = 'target=%s artifact=%s (re-run: FZ_TARGET=%s build/fuzz/bin/fz_all <artifact>)' % (job.tag, art.group(1) if art else '-', job.tag)
     found = []
